@@ -378,3 +378,22 @@ package combinator
 //@   requires p != nil
 //@   ensures  r != nil
 //@   assigns  nothing
+
+//@ -- Single: the only child of a one-child non-terminal, otherwise the result as it is. Nothing is known about
+//@ -- the children of a foreign NonTerminalNode implementation, so PC1/PC2/PC3 (non-nil, validity and span of the returned
+//@ -- node) are not claimed for it: grammars using Single are outside the fragment the Parser contract covers.
+//@ closure Single$1(ctx *parsley.Context, lrc data.IntMap, pos parsley.Pos) (n parsley.Node, cp data.IntSet, err parsley.Error)
+//@   captures (p parsley.Parser)
+//@   requires p != nil
+//@   include  parsley.Parser.Parse except PC1, PC2, PC3
+//@   ensures  [once;C01,C02] ncalls() == 1 && callarg[*parsley.Context](1, 1) == ctx && same(callarg[data.IntMap](1, 2), lrc) && callarg[parsley.Pos](1, 3) == pos
+//@   ensures  [pass] same(cp, callres[data.IntSet](1, 1)) && same(err, callres[parsley.Error](1, 2)) && (err != nil ==> n == nil)
+
+//@ -- Sentence(p) = the sequence [p, End] bound to Select(0): it matches exactly when p followed by the end of input does (C04)
+//@ import "github.com/opsidian/parsley/ast/interpreter"
+//@ func Sentence(p parsley.Parser) (r *Sequence)
+//@   props C04
+//@   requires p != nil
+//@   ensures  fresh(r) && r.token == "SEQ" && r.customErr == nil && r.resultHandler == nil && r.interpreter != nil
+//@   ensures  [root;C04] lookupOf(r.parserLookUp, 0) == p && lookupOf(r.parserLookUp, 1) != nil && (forall i int :: i >= 2 ==> lookupOf(r.parserLookUp, i) == nil) && forall n int :: lenOf(r.lenCheck, n) == (n == 2)
+//@   assigns  nothing
